@@ -251,9 +251,7 @@ theorem C06_kdbx4_total (P : Prims) (data : Bytes) (comp : Option Bytes) (s : St
           · rcases bind_panic _ _ s h with h1 | ⟨⟨ia, bodyStart⟩, _, h⟩
             · exact innerLoop_panic _ _ _ _ _ h1
             try simp only at h
-            split at h
-            · split at h <;> cases h
-            · cases h
+            split at h <;> cases h
 
 /-- C06 at full strength for the KDBX4 container -/
 def C06_total : Prop := ∀ (P : Prims) (data : Bytes) (comp : Option Bytes), (decrypt P data comp).isPanic = false
